@@ -75,6 +75,13 @@ func c05Witnesses() []c05Witness {
 		c05Witness{"empty-entry-name", []string{"h.open Book1.xlsx", "h.table " + s2 + " J8:G6 " + hx("t1") + " 7", "h.copysheet 0 1", "h.formctl " + s2 + " D8 6 " + hx("txt"), "h.save"}},
 		c05Witness{"comment-dollar-ref", []string{"h.new", "h.comment " + s1 + " $B$2 " + hx("Au") + " " + hx("t"), "h.save"}},
 		c05Witness{"delslicer-dangling", []string{"h.new", "h.setrow " + s1 + " A1 " + hx("Month") + " " + hx("Year") + " " + hx("Type"), "h.table " + s1 + " A1:C3 " + hx("SlT1") + " 0", "h.slicer " + s1 + " " + hx("Month") + " C12 " + s1 + " " + hx("SlT1") + " 3", "h.delslicer " + hx("Month"), "h.save"}},
+		c05Witness{"removerow-error-halfway", []string{"h.new", "h.newsheet " + hx("Stream1"), "h.stream.new " + hx("Stream1"), "h.stream.row 4 XFD " + hx("a") + " " + hx("b"), "h.stream.flush",
+			"h.setformula " + s1 + " D14 " + hx("SUM(1,2)") + " 2 D14:D16", "h.rmrow " + s1 + " 13", "h.setstr " + s1 + " H13 " + hx("x"), "h.save"}},
+		c05Witness{"background-missing-sheet", []string{"h.new", "h.background " + hx("Nope") + " 0", "h.save"}},
+		c05Witness{"background-chartsheet", []string{"h.new", "h.chartsheet " + hx("Chart1") + " " + s1 + " 10", "h.background " + hx("Chart1") + " 1", "h.save"}},
+		c05Witness{"copysheet-then-delformctl", []string{"h.new", "h.link " + s1 + " D8 " + hx("http://x/<y>") + " 0", "h.newsheet " + s2, "h.formctl " + s2 + " D2 5 " + hx("txt"), "h.copysheet 1 0", "h.delformctl " + s1 + " D2", "h.save"}},
+		c05Witness{"last-sheet-delete", []string{"h.open Book1.xlsx", "h.delsheet " + s2, "h.chartsheet " + hx("Chart1") + " " + s1 + " 4", "h.delsheet " + s1, "h.save", "h.reopen", "h.delsheet " + hx("Chart1"), "h.save"}},
+		c05Witness{"stream-then-deletesheet", []string{"h.new", "h.link " + s1 + " D16 " + hx("mailto:a@b.c") + " 0", "h.newsheet " + hx("Stream1"), "h.stream.new " + s1, "h.delsheet " + s1, "h.save"}},
 		c05Witness{"vba-write", []string{"h.new", "h.vba", "h.save"}},
 		c05Witness{"rename-duplicate", []string{"h.new", "h.newsheet " + s2, "h.rensheet " + s1 + " " + s2, "h.save"}},
 		c05Witness{"dv-markup", []string{"h.new", "h.dv " + s1 + " " + hx("A1:A3") + " 4 1 " + hx("AND(A1<5,B1>\"&\")"), "h.save"}},
